@@ -506,6 +506,18 @@ void World::opRaw(const Item& op)
                     body[off + width + static_cast<size_t>(z)] = 0;
             }
         }
+        if (m.has("ilen2"))
+        {
+            size_t off;
+            int width;
+            if (innerLenField(kind, body.data(), body.size(), static_cast<int>(m.get("iwhich2", 1)), off, width) && off + width <= body.size())
+            {
+                if (width == 1)
+                    body[off] = static_cast<uint8_t>(m.get("ilen2"));
+                else
+                    wire::wr16(body.data() + off, static_cast<uint16_t>(m.get("ilen2")));
+            }
+        }
         wire::MsgHdr mh;
         mh.ts = static_cast<uint64_t>(m.get("ts", 0));
         mh.id32 = static_cast<uint32_t>(m.get("ifid", 0));
